@@ -121,4 +121,70 @@ example : (pass dX envX).deletedLocal = [1, 3] := by decide
 example : (pass dX envX).marked = [("db", "rp", 1)] := by decide
 example : ((expired rpX 150).map (·.id)) = [1] := by decide
 
+/-! ### the local deletion never takes a series an unexpired shard holds -/
+
+/-- **No series of a remaining shard is removed**: whatever the expired shard and the others
+hold, a series that leaves the series file is held by none of the database's other shards. -/
+theorem delete_keeps_live_series (target : List Nat) (others : List (Option (List Nat))) (rm : List Nat)
+    (h : deleteShardSeries target others = some rm) :
+    ∀ id ∈ rm, ∀ l, some l ∈ others → id ∉ l := by
+  unfold deleteShardSeries at h
+  split at h
+  · exact absurd h (by simp)
+  · simp only [Option.some.injEq] at h
+    subst h
+    intro id hid l hl
+    simp only [List.mem_filter, List.all_eq_true, Bool.not_eq_eq_eq_not, Bool.not_true] at hid
+    have := hid.2 (some l) hl
+    simpa using this
+
+/-- **Every series only the expired shard held is removed** (nothing of it lingers in the
+series file), and nothing else is. -/
+theorem delete_removes_exactly_orphans (target : List Nat) (others : List (Option (List Nat))) (rm : List Nat)
+    (h : deleteShardSeries target others = some rm) (id : Nat) :
+    id ∈ rm ↔ id ∈ target ∧ ∀ l, some l ∈ others → id ∉ l := by
+  unfold deleteShardSeries at h
+  split at h
+  · exact absurd h (by simp)
+  · rename_i hnone
+    simp only [Option.some.injEq] at h
+    subst h
+    simp only [List.mem_filter, List.all_eq_true, Bool.not_eq_eq_eq_not, Bool.not_true]
+    constructor
+    · rintro ⟨ht, ho⟩
+      refine ⟨ht, fun l hl => ?_⟩
+      simpa using ho (some l) hl
+    · rintro ⟨ht, ho⟩
+      refine ⟨ht, fun o hoo => ?_⟩
+      cases o with
+      | none =>
+        exact absurd (List.any_eq_true.mpr ⟨none, hoo, rfl⟩) hnone
+      | some l => simpa using ho l hoo
+
+/-- the deletion is abandoned exactly when some other shard's index is unavailable — and then
+nothing changes, so that the next check can do it -/
+theorem delete_abandoned_iff (target : List Nat) (others : List (Option (List Nat))) :
+    deleteShardSeries target others = none ↔ none ∈ others := by
+  unfold deleteShardSeries
+  split
+  · rename_i h
+    simp only [true_iff]
+    obtain ⟨o, ho, hn⟩ := List.any_eq_true.mp h
+    cases o with
+    | none => exact ho
+    | some _ => simp at hn
+  · rename_i h
+    simp only [reduceCtorEq, false_iff]
+    intro hn
+    exact h (List.any_eq_true.mpr ⟨none, hn, rfl⟩)
+
+/-- **Skipping an unavailable shard takes its series**: a series shared with a disabled,
+unexpired shard leaves the series file (mutation c17-n3) — the abandoned deletion does not. -/
+theorem skipping_unavailable_takes_live_series :
+    deleteShardSeriesSkipping [1, 2] [none, some [5]] = [1, 2] ∧
+    deleteShardSeries [1, 2] [none, some [5]] = none ∧
+    deleteShardTwice [1, 2] [none, some [5]] [some [2, 3], some [5]] = (true, some [1]) := by decide
+
+example : deleteShardSeries [1, 2, 3] [some [2], some [3, 4]] = some [1] := by decide
+
 end InfluxVerif.Retention
